@@ -1,6 +1,125 @@
-(** * Props/C19.v — placeholder until the prune proofs land; replaced by the proof builder. *)
+(** * Props/C19.v — Pruning removes only old block bodies and never breaks the node.
+    Only the property theorems; each is closed by [exact] and followed by Print Assumptions.
+    About the manager model [Chain/Manager.v] (validated against the real chain.Manager by
+    the C01 harness after every call, pruning and MinReorgIndex included).  [MInv U m] is
+    the inductive invariant of C01; it holds in every reachable state
+    ([C01_best_chain_inv], operations [Prune h] included). *)
+From Coq Require Import NArith ZArith List.
 From stdpp Require Import gmap.
-From CV Require Import Chain.Manager.
-Theorem C19_prune_zero_is_identity : forall m, prune m 0 = m.
-Proof. exact (fun _ => eq_refl). Qed.
-Print Assumptions C19_prune_zero_is_identity.
+From CV Require Import Chain.Manager Chain.ManagerProofs Chain.PruneProofs.
+Import ListNotations.
+Open Scope N_scope.
+
+(** After [prune m h]: the best chain is unchanged; a block loses body and supplement
+    (its state kind and its header stay) iff it is [pruned_by m h]: the best-chain block at
+    some height i < h such that the best-chain blocks at all heights i..h-1 exist and
+    still had their bodies (the walk down from h-1 stops at the first missing body);
+    every other record is untouched. *)
+Theorem C19_prune_removes_only_bodies :
+  ∀ U, WF U → ∀ m h, MInv U m →
+    best (prune m h) = best m ∧
+    ∀ x,
+      (pruned_by m h x →
+         ∃ k, known m !! x = Some k ∧ known (prune m h) !! x = Some (KI (kst k) false false)) ∧
+      (¬ pruned_by m h x → known (prune m h) !! x = known m !! x).
+Proof. exact prune_removes_only_bodies. Qed.
+Print Assumptions C19_prune_removes_only_bodies.
+
+(** the removed blocks are best-chain blocks below the prune height *)
+Theorem C19_pruned_are_old_best_blocks :
+  ∀ U, WF U → ∀ m h x, MInv U m → pruned_by m h x → x ∈ best m ∧ ht U x < h.
+Proof. exact pruned_by_ht. Qed.
+Print Assumptions C19_pruned_are_old_best_blocks.
+
+(** states and headers survive any prune, in any state whatsoever *)
+Theorem C19_prune_keeps_states_headers :
+  ∀ m h x, has_state (prune m h) x = has_state m x ∧ has_hdr (prune m h) x = has_hdr m x.
+Proof. exact prune_keeps_states_headers. Qed.
+Print Assumptions C19_prune_keeps_states_headers.
+
+(** BestIndex(h) is the best-chain block of height h (what [pruned_by] speaks about) *)
+Theorem C19_best_index_is_height :
+  ∀ U, WF U → ∀ m h y, MInv U m → best_at m h = Some y → ht U y = h.
+Proof. exact best_at_ht. Qed.
+Print Assumptions C19_best_index_is_height.
+
+(** PruneBlocks(h) with h beyond tip height + 1 removes nothing (the loop breaks at once) *)
+Theorem C19_prune_beyond_tip_is_noop :
+  ∀ m h, N.of_nat (length (best m)) < h → prune m h = m.
+Proof. exact prune_beyond_tip_noop. Qed.
+Print Assumptions C19_prune_beyond_tip_is_noop.
+
+Theorem C19_prune_idempotent : ∀ m h, prune (prune m h) h = prune m h.
+Proof. exact prune_idempotent. Qed.
+Print Assumptions C19_prune_idempotent.
+
+Theorem C19_prune_preserves_inv : ∀ U m h, MInv U m → MInv U (prune m h).
+Proof. exact prune_preserves_inv. Qed.
+Print Assumptions C19_prune_preserves_inv.
+
+(** MinReorgIndex: best = t :: mid ++ rest where every block of [mid] (the blocks
+    directly below the tip) still has its body and the first block of [rest] does not;
+    the answer is the last block of t :: mid.  The tip's own body is not looked at. *)
+Theorem C19_min_reorg_spec :
+  ∀ m t l, best m = t :: l →
+    ∃ mid rest, best m = t :: mid ++ rest ∧ min_reorg m = List.last mid t ∧
+      (∀ y, y ∈ mid → has_body m y = true) ∧
+      (∀ z, head rest = Some z → has_body m z = false).
+Proof. exact min_reorg_spec. Qed.
+Print Assumptions C19_min_reorg_spec.
+
+(** An AddBlocks whose reorg has to revert a block whose body is gone returns an error
+    (never panics), notifies nobody, and leaves the best chain and the record of every
+    best-chain block exactly as before. *)
+Theorem C19_below_boundary_is_error_and_noop :
+  ∀ U, WF U → ∀ m batch x, MInv U m →
+    x ∈ reorg_reverts U m batch → has_body m x = false →
+    ∃ m', add_blocks U m batch = (m', Err, false) ∧ best m' = best m ∧
+          ∀ b, b ∈ best m → known m' !! b = known m !! b.
+Proof. exact below_boundary. Qed.
+Print Assumptions C19_below_boundary_is_error_and_noop.
+
+(** Twin equivalence.  [twin m m']: same best chain, and [m'] is [m] with the bodies and
+    supplements of some best-chain blocks removed.  If the reorg of an AddBlocks reverts
+    only best-chain blocks whose body is present on both, both nodes return the same
+    outcome and notification and are twins again (so the statement iterates over any
+    later history). *)
+Theorem C19_twin_step :
+  ∀ U, WF U → ∀ m m' batch, MInv U m → MInv U m' → twin m m' →
+    (∀ x, x ∈ reorg_reverts U m' batch → x ∈ best m → has_body m' x = has_body m x) →
+    ∃ r r' out nt, add_blocks U m batch = (r, out, nt) ∧
+                   add_blocks U m' batch = (r', out, nt) ∧ twin r r'.
+Proof. exact add_blocks_twin. Qed.
+Print Assumptions C19_twin_step.
+
+(** ... in particular for m' = prune m h and every batch whose reorg reverts only blocks
+    strictly above the pruned node's MinReorgIndex (fork point at or above it) *)
+Theorem C19_twin_equivalence :
+  ∀ U, WF U → ∀ m h batch, MInv U m →
+    (∀ x, x ∈ reorg_reverts U (prune m h) batch →
+          ht U (min_reorg (prune m h)) < ht U x) →
+    ∃ r r' out nt, add_blocks U m batch = (r, out, nt) ∧
+                   add_blocks U (prune m h) batch = (r', out, nt) ∧
+                   twin r r'.
+Proof. exact twin_equivalence_min_reorg. Qed.
+Print Assumptions C19_twin_equivalence.
+
+(** ... and for every batch whose reorg reverts only blocks at or above the prune height *)
+Theorem C19_twin_equivalence_height :
+  ∀ U, WF U → ∀ m h batch, MInv U m →
+    (∀ x, x ∈ reorg_reverts U (prune m h) batch → h ≤ ht U x) →
+    ∃ r r' out nt, add_blocks U m batch = (r, out, nt) ∧
+                   add_blocks U (prune m h) batch = (r', out, nt) ∧
+                   twin r r'.
+Proof. exact twin_equivalence_height. Qed.
+Print Assumptions C19_twin_equivalence_height.
+
+(** "strictly above" cannot be weakened to "at or above": with the tip itself pruned,
+    MinReorgIndex is the tip, and reverting it fails on the pruned node only. *)
+Theorem C19_twin_at_boundary_refuted :
+  ∃ U m h batch, WF U ∧ MInv U m ∧
+    (∀ x, x ∈ reorg_reverts U (prune m h) batch →
+          ht U (min_reorg (prune m h)) ≤ ht U x) ∧
+    (add_blocks U m batch).1.2 = Ok ∧ (add_blocks U (prune m h) batch).1.2 = Err.
+Proof. exact ExP.twin_at_boundary_refuted. Qed.
+Print Assumptions C19_twin_at_boundary_refuted.
